@@ -400,6 +400,8 @@ def run(ctx):
             elif what == "frac_shape":
                 f = r.choice([0.0, 1e-9, 5e-9, 2e-8, 0.004, 0.0099, 0.01, 0.011, 0.3, 0.5, 0.7, 0.999, 1 - 1e-9])
                 args = {"area_extent": {"v": list(ext)}, "shape": {"v": [shape[0] + f, shape[1] + r.choice([0.0, f])]}}
+                if r.random() < 0.3:      # exactly on the thresholds of _round_shape (.01 and 1e-8 above an integer)
+                    args["shape"]["v"] = [float(r.choice([1, 2, 64])) if r.random() < 0.5 else 0.01, r.choice([0.01, 1e-8, 1.0 + 2.0 ** -7, 0.5, 1.5, 2.5])]
             elif what == "frac_res":
                 f = r.choice([1.0, 1 + 1e-10, 1 + 1e-5, 0.999, 1.007, 1.013, 0.7, 1.5, 3.3])
                 args = {"area_extent": {"v": list(ext)}, "resolution": {"v": [d["resolution"][0] * f, d["resolution"][1] * r.choice([1.0, f])]}}
